@@ -204,6 +204,12 @@ func cmdCheck(args []string) int {
 			if i := strings.LastIndex(base, " #"); i >= 0 {
 				base = base[:i]
 			}
+			if o.FindKey != "" {
+				base = o.FindKey
+			}
+			if os.Getenv("DUMPFINDKEYS") != "" {
+				fmt.Printf("FINDKEY\t%s\t%s\t%s\n", o.Rule, o.Construct, base)
+			}
 			if f, ok := known[o.Rule+"|"+base]; ok {
 				cnt := f.Count
 				if cnt == 0 {
